@@ -219,10 +219,17 @@ def main(argv):
                 if len(samples) < 6:
                     samples.append(dict(obligation="%s::%s" % (u, qual), discharged=bool(info["success"]),
                                         backend="verus/z3", smt_ms=info["time_ms"]))
+            lost = {}
+            for q, a in getattr(g, "lost_hints", []):
+                lost.setdefault(q, []).append(a)
             for d in res.diags:
                 if d.func == "vf_canary":
                     continue
                 if not diag_relevant(unit, d, prop, extracted):
+                    continue
+                if d.func in lost:
+                    undecided.append("%s: proof hint anchor `%s` in %s no longer exists and %s fails: cannot tell a refactoring from a defect"
+                                     % (u, lost[d.func][0], d.func, d.obligation_name(u)))
                     continue
                 k = known_match(known, prop, u, d)
                 if k:
